@@ -1226,16 +1226,23 @@ class SpectrumResult:
                 elif name == "Hyx":
                     val = np.conj(self.Hxy)
                 elif name == "coh":
+                    # (|XY|/XX) * (|XY|/YY): the products |XY|**2 and XX*YY would
+                    # overflow/underflow for records of very large/small amplitude
                     val = np.divide(
-                        np.abs(self._data["XY"]) ** 2,
-                        self._data["XX"] * self._data["YY"],
+                        np.abs(self._data["XY"]),
+                        self._data["XX"],
+                        out=np.zeros_like(self._data["XX"]),
+                        where=(self._data["XX"] != 0) & (self._data["YY"] != 0),
+                    ) * np.divide(
+                        np.abs(self._data["XY"]),
+                        self._data["YY"],
                         out=np.zeros_like(self._data["XX"]),
                         where=(self._data["XX"] != 0) & (self._data["YY"] != 0),
                     )
                 elif name == "ccoh":
                     val = np.divide(
                         self._data["XY"],
-                        np.sqrt(self._data["XX"] * self._data["YY"]),
+                        np.sqrt(self._data["XX"]) * np.sqrt(self._data["YY"]),
                         out=np.zeros_like(self._data["XX"], dtype=complex),
                         where=(self._data["XX"] != 0) & (self._data["YY"] != 0),
                     )
@@ -1335,7 +1342,7 @@ class SpectrumResult:
                 )
             elif name == "Gxy_dev":
                 val = (
-                    np.sqrt(np.abs(self.Gxy) ** 2 / coh / navg) if self.iscsd else None
+                    np.abs(self.Gxy) / np.sqrt(coh * navg) if self.iscsd else None
                 )
             elif name == "coh_dev":
                 val = (
